@@ -233,7 +233,7 @@ def cfgs(tier):
                 yield 'ShiftLeftConstant a%d r%d n%d' % (aw, rw, n), shk_cfg(ShiftLeftConstant, aw, rw, n, f_shl)
                 yield 'ShiftRightConstant a%d r%d n%d' % (aw, rw, n), shk_cfg(ShiftRightConstant, aw, rw, n, f_shr)
         for n in range(0, aw + 1):
-            for rw in ([aw] if quick else sorted(set([aw, max(1, aw - 1), aw + 2]))):
+            for rw in sorted(set([aw, aw + 2] if quick else [aw, max(1, aw - 1), aw + 2])):
                 yield 'RotateLeftConstant a%d r%d n%d' % (aw, rw, n), shk_cfg(RotateLeftConstant, aw, rw, n, f_rotl)
                 yield 'RotateRightConstant a%d r%d n%d' % (aw, rw, n), shk_cfg(RotateRightConstant, aw, rw, n, f_rotr)
 
